@@ -34,7 +34,7 @@ RULE = ("URLs rendered from structured records (platform, host spelling, path se
 ASSUMPTIONS = [
     "ground truth 'this URL is the platform's' is known by construction (host taken from a fixed list per platform); for arbitrary strings it is unknown and TypeError from convert_* is accepted",
     "fb.me is not judged for convert_facebook_url_to_mobile (is_facebook_url accepts it, the converter rejects it: the statement does not say which is right)",
-    "well-formed record = instance of the documented class whose fields are str or None; emptiness of a field is not judged by itself (only through validators and the round trip)",
+    "well-formed record = instance of the documented class whose fields are str or None; a field that is the empty string makes the record ill-formed",
     "SplitResult arguments are outside the quantifier ('for every string'): the SplitResult branch of the is_*_url predicates is exercised with host-ful inputs only, host-less ones are counted, not judged (C18 owns them)",
     "normalize_url(platform_aware=True) is only monitored for exceptions raised inside the six platform modules (its own totality belongs to C05)",
     "a YouTube record whose id fails is_youtube_video_id is reported once, as a validator violation; the round trip of its canonical URL is not judged again",
@@ -458,6 +458,11 @@ class Checker(object):
         for k, x in fields_of(v):
             if x is not None and not isinstance(x, str):
                 self.viol("C19:result-type:%s:%s.%s-not-str" % (name, type(v).__name__, k), wit, {"got": repr(x)})
+                return None
+        for k, x in fields_of(v):
+            if x == "":
+                # a record whose id / name / handle is the empty string is not a well-formed record
+                self.viol("C19:ill-formed-record:%s:%s.%s-empty" % (name, type(v).__name__, k), wit, {"got": repr(v)})
                 return None
         ctx.count("rec:" + type(v).__name__)
         return v
